@@ -79,6 +79,23 @@ ssize_t writev(int fd, const struct iovec *iov, int cnt) {
     SimScope s; std::string all; for (int i = 0; i < cnt; i++) all.append((const char *)iov[i].iov_base, iov[i].iov_len);
     long r = k_write(fd, all.data(), all.size()); if (r < 0) { errno = (int)-r; return -1; } return r;
 }
+static int sim_vdprintf(int fd, const char *fmt, va_list ap) {
+    va_list c; va_copy(c, ap); int n = vsnprintf(nullptr, 0, fmt, c); va_end(c);
+    if (n < 0) return n;
+    SimScope s; std::string buf((size_t)n + 1, '\0'); vsnprintf(&buf[0], (size_t)n + 1, fmt, ap);
+    size_t done = 0;                       // glibc's vdprintf goes through a stdio buffer that is flushed with a write loop
+    while (done < (size_t)n) { long r = k_write(fd, buf.data() + done, (size_t)n - done); if (r < 0) { errno = (int)-r; return -1; } if (!r) break; done += (size_t)r; }
+    return (int)done;
+}
+int vdprintf(int fd, const char *fmt, va_list ap) {
+    if (!simfd(fd) || t_in_sim) return REAL(vdprintf)(fd, fmt, ap);
+    return sim_vdprintf(fd, fmt, ap);
+}
+int dprintf(int fd, const char *fmt, ...) {
+    va_list ap; va_start(ap, fmt);
+    int r = (!simfd(fd) || t_in_sim) ? REAL(vdprintf)(fd, fmt, ap) : sim_vdprintf(fd, fmt, ap);
+    va_end(ap); return r;
+}
 off_t lseek(int fd, off_t off, int whence) {
     if (!simfd(fd) || t_in_sim) return rawret(RAW(SYS_lseek, fd, off, whence, 0, 0, 0));
     SimScope s; long r = k_lseek(fd, off, whence); if (r < 0) { errno = (int)-r; return -1; } return r;
@@ -245,8 +262,12 @@ static int fill_pw(const IdName &e, struct passwd *pwd, char *buf, size_t len) {
     pwd->pw_uid = e.id; pwd->pw_gid = e.id;
     return 0;
 }
+static int sim_getpwuid_r(uid_t uid, struct passwd *pwd, char *buf, size_t len, struct passwd **res);
 int getpwuid_r(uid_t uid, struct passwd *pwd, char *buf, size_t len, struct passwd **res) {
     if (!sim_active()) return REAL(getpwuid_r)(uid, pwd, buf, len, res);
+    return sim_getpwuid_r(uid, pwd, buf, len, res);
+}
+static int sim_getpwuid_r(uid_t uid, struct passwd *pwd, char *buf, size_t len, struct passwd **res) {
     SimScope s; sched_point(SP_IO); sim_step();
     Fault f; bool faulted = sim_fault("getpwuid_r", f);
     Ev &e = sim_event("getpwuid_r"); e.a = uid;
@@ -260,10 +281,14 @@ int getpwuid_r(uid_t uid, struct passwd *pwd, char *buf, size_t len, struct pass
 struct passwd *getpwuid(uid_t uid) {
     if (!sim_active()) return REAL(getpwuid)(uid);
     static __thread struct passwd pw; static __thread char b[512]; struct passwd *res;
-    int r = getpwuid_r(uid, &pw, b, sizeof b, &res); if (r) { errno = r; return nullptr; } return res;
+    int r = sim_getpwuid_r(uid, &pw, b, sizeof b, &res); if (r) { errno = r; return nullptr; } return res;
 }
+static int sim_getgrgid_r(gid_t gid, struct group *grp, char *buf, size_t len, struct group **res);
 int getgrgid_r(gid_t gid, struct group *grp, char *buf, size_t len, struct group **res) {
     if (!sim_active()) return REAL(getgrgid_r)(gid, grp, buf, len, res);
+    return sim_getgrgid_r(gid, grp, buf, len, res);
+}
+static int sim_getgrgid_r(gid_t gid, struct group *grp, char *buf, size_t len, struct group **res) {
     SimScope s; sched_point(SP_IO); sim_step();
     Fault f; bool faulted = sim_fault("getgrgid_r", f);
     Ev &e = sim_event("getgrgid_r"); e.a = gid;
@@ -283,10 +308,14 @@ int getgrgid_r(gid_t gid, struct group *grp, char *buf, size_t len, struct group
 struct group *getgrgid(gid_t gid) {
     if (!sim_active()) return REAL(getgrgid)(gid);
     static __thread struct group gr; static __thread char b[512]; struct group *res;
-    int r = getgrgid_r(gid, &gr, b, sizeof b, &res); if (r) { errno = r; return nullptr; } return res;
+    int r = sim_getgrgid_r(gid, &gr, b, sizeof b, &res); if (r) { errno = r; return nullptr; } return res;
 }
+static int sim_getlogin_r(char *buf, size_t len);
 int getlogin_r(char *buf, size_t len) {
     if (!sim_active()) return REAL(getlogin_r)(buf, len);
+    return sim_getlogin_r(buf, len);
+}
+static int sim_getlogin_r(char *buf, size_t len) {
     SimScope s; sched_point(SP_IO); sim_step();
     Fault f; bool faulted = sim_fault("getlogin_r", f);
     Ev &e = sim_event("getlogin_r");
@@ -298,7 +327,7 @@ int getlogin_r(char *buf, size_t len) {
 }
 char *getlogin(void) {
     if (!sim_active()) return REAL(getlogin)();
-    static __thread char b[256]; int r = getlogin_r(b, sizeof b); if (r) { errno = r; return nullptr; } return b;
+    static __thread char b[256]; int r = sim_getlogin_r(b, sizeof b); if (r) { errno = r; return nullptr; } return b;
 }
 
 // ---------------------------------------------------------------- host, cwd, tty, utmp
@@ -326,8 +355,12 @@ char *getcwd(char *buf, size_t size) {
     sut_write(buf, G.w.cwd.c_str(), n);
     return buf;
 }
+static int sim_ttyname_r(int fd, char *buf, size_t len);
 int ttyname_r(int fd, char *buf, size_t len) {
     if (!sim_active()) return REAL(ttyname_r)(fd, buf, len);
+    return sim_ttyname_r(fd, buf, len);
+}
+static int sim_ttyname_r(int fd, char *buf, size_t len) {
     SimScope s; sched_point(SP_IO); sim_step();
     Fault f; bool faulted = sim_fault("ttyname_r", f);
     Ev &e = sim_event("ttyname_r"); e.a = fd; e.b = (long)len;
@@ -343,7 +376,7 @@ int ttyname_r(int fd, char *buf, size_t len) {
 }
 char *ttyname(int fd) {
     if (!sim_active()) return REAL(ttyname)(fd);
-    static __thread char b[256]; int r = ttyname_r(fd, b, sizeof b); if (r) { errno = r; return nullptr; } return b;
+    static __thread char b[256]; int r = sim_ttyname_r(fd, b, sizeof b); if (r) { errno = r; return nullptr; } return b;
 }
 static __thread size_t t_ut_cursor;
 void setutent(void) { if (!sim_active()) { REAL(setutent)(); return; } SimScope s; sim_step(); sim_event("setutent"); t_ut_cursor = 0; }
@@ -368,14 +401,14 @@ int getutline_r(const struct utmp *line, struct utmp *buf, struct utmp **res) {
 }
 
 // ---------------------------------------------------------------- secure-execution mode
-char *secure_getenv(const char *name) {
-    if (!sim_active()) return REAL(secure_getenv)(name);
+static char *sim_secure_getenv(const char *name) {
     SimScope s; sim_step(); sim_event("secure_getenv", name ? name : "");
     if (G.w.at_secure) return nullptr;
     t_in_sim--; char *v = getenv(name); t_in_sim++;
     return v;
 }
-char *__secure_getenv(const char *name) { return secure_getenv(name); }
+char *secure_getenv(const char *name) { if (!sim_active()) return REAL(secure_getenv)(name); return sim_secure_getenv(name); }
+char *__secure_getenv(const char *name) { if (!sim_active()) return REAL(secure_getenv)(name); return sim_secure_getenv(name); }
 unsigned long getauxval(unsigned long type) {
     if (!sim_active() || type != 23 /* AT_SECURE */) return REAL(getauxval)(type);
     SimScope s; sim_step(); sim_event("getauxval");
